@@ -7,6 +7,7 @@ Local Open Scope N_scope.
 Record case12 := {
   c_self : id;
   c_may_reject : bool;                    (* small bucket size: the table may refuse a peer (bucket full) *)
+  c_rejected : list id;                   (* peers the node's routing-table filter rejects, for good *)
   c_steps : list (list rtev * list id);   (* events of one action; routing table after it *)
   i_panic : bool;
   i_refresh_answered_once : bool }.
@@ -77,8 +78,31 @@ Fixpoint prop_from (may_reject : bool) (hist : list rtev) (self : id) (steps : l
       && prop_from may_reject h self rest
   end.
 
+(* a peer the routing-table filter rejects can only be a member because it answered a lookup
+   query (which the filter does not concern) since it was last evicted - never through the
+   admission probe *)
+Fixpoint query_admitted (hist_rev : list rtev) (p : id) : bool :=
+  match hist_rev with
+  | [] => false
+  | e :: r =>
+      match e with
+      | QueryOk q => if N.eqb q p then true else query_admitted r p
+      | _ => if evicts e p then false else query_admitted r p
+      end
+  end.
+Fixpoint filter_from (rejected : list id) (hist : list rtev) (steps : list (list rtev * list id)) : bool :=
+  match steps with
+  | [] => true
+  | (evs, snapshot) :: rest =>
+      let h := hist ++ evs in
+      forallb (fun p => negb (memN p rejected) || query_admitted (rev h) p) snapshot
+      && filter_from rejected h rest
+  end.
+Definition filter_ok (c : case12) : bool := filter_from (c_rejected c) [] (c_steps c).
+
 Definition c12_prop_ok (c : case12) : bool :=
-  negb (i_panic c) && i_refresh_answered_once c && prop_from (c_may_reject c) [] (c_self c) (c_steps c).
+  negb (i_panic c) && i_refresh_answered_once c && filter_ok c &&
+  prop_from (c_may_reject c) [] (c_self c) (c_steps c).
 Definition c12_agrees (c : case12) : bool :=
   agrees_from (c_may_reject c) {| rt := []; probing := []; capacity := 256 |} (c_steps c).
 
